@@ -16,7 +16,7 @@ CHECKS = {
          "exploration with an exhaustive sub-domain: all strings up to length 4 (quick) / 6 (thorough) over a 73-character class alphabet whose proper prefixes keep the reference outside ground, both parser modes, plus all ordered pairs of a pool of 313 complete/aborted/skipped sequences, digit runs of 1..40 digits and parameters around the machine-integer widths for every final, the three dispatch tables called directly, random long strings and mutated sessions; the listener's dispatch tables are inside the observed system",
          "where the statement is silent the reference follows the documented pyte recogniser; OSC R/P and multi-character OSC codes are don't-care; Cc characters ignored in text comparison", "§6 C03, App. A"),
  "C04": ("per-step Hoare monitor: reference drawing semantics on the implementation's own pre-state; zoo states x text classes, API + parser path",
-         "exploration: ~1M judged draw() calls per quick run over zoo states (pending wrap, IRM, DECAWM off, margins, wide/combining content, 1-column screens) and a 40-character class pool (singles, all ordered pairs, random strings)",
+         "exploration: ~1M judged draw() calls per quick run over zoo states (pending wrap, IRM, DECAWM off, margins, wide/combining content, 1-column screens) and a 46-character class pool (singles, all ordered pairs, random strings)",
          "reference semantics written from the statement; width/combining tables trusted; three corners the statement leaves open are accepted either way (DESIGN §6 C04)", "§6 C04"),
  "C05": ("per-step Hoare monitor (closed-form cursor oracle) over enumerated and generated states, API + parser path",
          "exploration: every movement call observed in ~2M executions per quick run is judged against the closed-form rule applied to the implementation's own pre-state; small geometries x regions x DECOM x cursors x P(size) enumerated completely",
